@@ -66,6 +66,9 @@ CHECKS["C16"] = dict(design="4 C16", technique="TLA+ spec (VecCache) model-check
 CHECKS["C19"] = dict(design="4 C19", technique="TLA+ spec (OutFile with engine-call steps: EngineSurfaces, ErrMeansNoFile; TraceLife TrEngFail) + failure plans enumerated from the engine double's call log, executed on the real build / merge, validated by TLC",
     note=VEC_NOTE + " Only failures reported through the go-faiss API can be injected.",
     text="For flat and clustered (>= 1000 vectors: SetDirectMap, Train) scenarios the fault-free build and merge are run once and the double's call log gives, per engine operation (IndexFactory, SetDirectMap, Train, AddWithIDs, WriteIndexIntoBuffer, ReadIndexFromBuffer, ReconstructBatch), every n that occurs; each n-th call is made to fail in turn. TLC requires for every plan: an error is returned, no file is left, the double's live-index count returns to its baseline (bounded wait); an operation that reports success is validated completely (vector search answers of the result against TopKOK), so silently missing vectors are a mismatch. OutFile.tla's engine-call steps are model-checked (EngineSurfaces).")
+CHECKS["C09"] = dict(design="4 C09", technique="TLA+ spec of the byte layout (ZapLayout: a decoder written in TLA+) evaluated by TLC on the files the code writes; frozen corpus of files of the pinned release re-read by the current code and validated by TLC (TraceLife)",
+    note="Trusted: TLC; the leaf decoders for the three embedded third-party formats (vellum FST, roaring, snappy), which use those libraries themselves; files of the vectors build contain the engine double's index bytes, so nothing is claimed about FAISS index blobs. The corpus was written by the pinned release (HEAD of /repo when the corpus was generated; the fix commits do not touch the format).",
+    text="(a) Every file up to 2 KB (quick) / 30 KB (thorough) written by Persist and Merge during the run (catalogue walks, mergey / synonym / rich scenarios) is decoded by ZapLayout.tla under TLC - footer at fixed positions, CRC-32 recomputed in TLA+, sections index, field table, inverted record, FST values incl. single-hit encoding, postings records, chunked freq/norm and location streams with the specification's own chunk rule, stored index and records, doc-value chunks and trailer, thesaurus blocks and id tables - and the decoded dictionaries, postings, stored fields, doc values and synonyms must equal ZapData's observation functions of the content that went in. (b) Ten files written by the pinned release (rich, synonym, and 2200-document files whose terms have exactly 1023/1024/1025/2047/2048/2049 hits under chunk modes 1026, 1025 and 1024, plus merged files) are opened by the current code on every run and their complete observations validated by TLC against the recorded inputs: a consistent writer+reader change of what the bytes mean is caught by (a) or (b).")
 HOOK_COMMITS = ["f76ac2a", "d66d9b6"]
 
 NA = {}
